@@ -138,7 +138,7 @@ pub mod collections {
         pub fn entry(&mut self, k: K) -> (r: Entry<'_, K, V>) { unimplemented!() }
         #[verifier::external_body]
         pub fn into_values(self) -> (r: crate::shims::iter::Iter<V>)
-            ensures !r@.endless,
+            /*@PARTIAL*/ ensures !r@.endless,
                 forall|i: int| 0 <= i < r@.items.len() ==> exists|k: K| #[trigger] self@.contains_key(k) && self@[k] == #[trigger] r@.items[i],
                 forall|k: K| #[trigger] self@.contains_key(k) ==> exists|i: int| 0 <= i < r@.items.len() && #[trigger] r@.items[i] == self@[k],
         { unimplemented!() }
